@@ -17,14 +17,14 @@ META = {
 
 
 def check(ctx):
-    G.prim_syn_table(ctx, "C01.1")
+    G.prim_syn_table(ctx, "C01.1", strict_root=False)
     G.resolver_arms(ctx, "C01.3")
     G.resolver_entry_flags(ctx, "C01.11")
     G.cow_unwrap(ctx, "C01.12")
-    G.syn_arms(ctx, "C01.13")
-    G.prelude_table(ctx, "C01.21")
+    G.syn_arms(ctx, "C01.13", strict_alloc=False)
+    G.prelude_table(ctx, "C01.21", strict_root=False)
     G.generated_path(ctx, "C01.23")
     G.enum_struct_ir(ctx, "C01.24")
     G.field_closures(ctx, "C01.26")
     G.item_templates(ctx, "C01.29")
-    G.field_templates(ctx, "C01.31")
+    G.field_templates(ctx, "C01.31", strict_alloc=False)
